@@ -78,6 +78,24 @@ Theorem C16_no_strand_cancel_refuted :
 Proof. exact no_strand_cancel_refuted. Qed.
 Print Assumptions C16_no_strand_cancel_refuted.
 
+(* The receiver's side of "reports closure consistently to both sides" as absence of the dual
+   bad quiescent state (nothing runnable, receiver parked, and an item is buffered or every
+   sender is gone).  FULL statement: forall tr, reachable ... -> ~ RxStranded s.  FALSE of the
+   code when a sender is closed with close_this_sender / Sink::poll_close (refutation below);
+   proved for executions of the same class that contain no CloseSender label. *)
+Theorem C16_no_rx_strand : forall c progs tr s,
+  cap_ok c = true -> single_progs progs = true ->
+  reachable strict (init c progs) tr s -> existsb is_close_sender tr = false -> ~ RxStranded s.
+Proof. exact no_rx_strand. Qed.
+Print Assumptions C16_no_rx_strand.
+
+(* finding 4: close_this_sender of the last sender does not wake the parked receiver *)
+Theorem C16_no_rx_strand_refuted :
+  exists s, single_progs w4_progs = true /\
+            reachable strict (init (Some 1) w4_progs) w4_trace s /\ RxStranded s.
+Proof. exact no_rx_strand_refuted. Qed.
+Print Assumptions C16_no_rx_strand_refuted.
+
 (* ------------------------------------------------------------------ non-vacuity *)
 
 (* the hypotheses of C16_no_strand hold of a run in which two senders really wait for capacity
